@@ -198,33 +198,35 @@ Definition delete_loc (c : cache) (l : loc) : outcome * cache :=
   | LTree rp => (ROk, with_root c (remove rp (c_root c)))
   end.
 
+(* parent_node.add_child(node) + registration of the ids, c3 = the state after the two deletes *)
+Definition attach_node (par : list N) (nm : N) (nd : node) (c3 : cache) : outcome * cache :=
+  match lookup par (c_root c3) with
+  | Some _ => (ROk, with_root c3 (modify par (add_kid nm nd) (c_root c3)))
+  | None =>
+    (* the parent object was detached by delete(oid=...): the child is added to a dead parent;
+       only the dict entry for its id survives *)
+    match n_id nd with
+    | Some o => (ROk, with_ghost c3 o (Node (n_dir nd) (Some o) (n_md nd) (n_kids nd)))
+    | None => (ROk, c3)
+    end
+  end.
+
 (* __insert_node(node, path) *)
-Definition insert_node (cf : cfg) (c : cache) (nd : node) (raw : path) : outcome * cache :=
+Definition insert_node (cf : cfg) (c : cache) (nd : node) (raw : list N) : outcome * cache :=
   let par := map (cf_fold cf) (removelast raw) in
   let nm := last raw 0%N in
   let c1 := with_root c (mkdirp par (c_root c)) in                 (* parent found or _mkdir(parent, None) *)
   let c2 := snd (delete_loc c1 (loc_path cf c1 raw)) in            (* self.delete(path=path) *)
   let pid := match lookup par (c_root c2) with Some P => n_id P | None => None end in
-  let attach (c3 : cache) : outcome * cache :=
-    match lookup par (c_root c3) with
-    | Some _ => (ROk, with_root c3 (modify par (add_kid nm nd) (c_root c3)))
-    | None =>
-      (* the parent object was detached by delete(oid=...): the child is added to a dead parent;
-         only the dict entry for its id survives *)
-      match n_id nd with
-      | Some o => (ROk, with_ghost c3 o (Node (n_dir nd) (Some o) (n_md nd) (n_kids nd)))
-      | None => (ROk, c3)
-      end
-    end in
   match n_id nd with
-  | None => attach c2
+  | None => attach_node par nm nd c2
   | Some o =>
     match loc_oid c2 o with
     | LGhost _ _ => (RErr EAttr, c2)                                (* self.delete(oid=node.oid) *)
     | l =>
       let c3 := snd (delete_loc c2 l) in
       if oid_is pid o then (RErr EAssert, c3)                       (* add_child -> child.check() *)
-      else attach c3
+      else attach_node par nm nd c3
     end
   end.
 
@@ -237,8 +239,24 @@ Definition make_node (cf : cfg) (c : cache) (d : bool) (p : path) (o : option oi
 (* what became of the node object handed to _set_oid *)
 Inductive fate := FSame | FGone | FGhost.
 
+(* the second half of _set_oid, c1 = the state after self.delete(oid=o); (d, i, m) = the node's fields *)
+Definition set_oid_after (cf : cfg) (c1 : cache) (rp : list N) (o : N) (d : bool) (i : option N) (m : list (N * N))
+  : outcome * cache * fate :=
+  let attached := opt_is (lookup rp (c_root c1)) in
+  match i with
+  | None =>
+    if attached then (ROk, with_root c1 (modify rp (set_id o) (c_root c1)), FSame)
+    else (ROk, with_ghost c1 o (Node d (Some o) m []), FGhost)
+  | Some _ =>
+    if attached then
+      (* the node is replaced by a fresh one; the root object itself is never replaced *)
+      let '(r, c2) := make_node cf c1 d rp (Some o) None in
+      (r, c2, match rp with [] => FSame | _ => FGone end)
+    else (RErr EType, c1, FGone)                                   (* normalize_path(None) *)
+  end.
+
 (* _set_oid(node, o), node = the tree node at raw path rp *)
-Definition set_oid_node (cf : cfg) (c : cache) (rp : path) (o : oid) : outcome * cache * fate :=
+Definition set_oid_node (cf : cfg) (c : cache) (rp : list N) (o : N) : outcome * cache * fate :=
   match lookup rp (c_root c) with
   | None => (ROk, c, FSame)
   | Some (Node d i m _) =>
@@ -246,20 +264,7 @@ Definition set_oid_node (cf : cfg) (c : cache) (rp : path) (o : oid) : outcome *
     else
       match loc_oid c o with
       | LGhost _ _ => (RErr EAttr, c, FSame)
-      | l =>
-        let c1 := snd (delete_loc c l) in
-        let attached := opt_is (lookup rp (c_root c1)) in
-        match i with
-        | None =>
-          if attached then (ROk, with_root c1 (modify rp (set_id o) (c_root c1)), FSame)
-          else (ROk, with_ghost c1 o (Node d (Some o) m []), FGhost)
-        | Some _ =>
-          if attached then
-            (* the node is replaced by a fresh one; the root object itself is never replaced *)
-            let '(r, c2) := make_node cf c1 d rp (Some o) None in
-            (r, c2, match rp with [] => FSame | _ => FGone end)
-          else (RErr EType, c1, FGone)                               (* normalize_path(None) *)
-        end
+      | l => set_oid_after cf (snd (delete_loc c l)) rp o d i m
       end
   end.
 
